@@ -113,7 +113,7 @@ def plugin_binary(ctx):
 
 
 def nrand(tier):
-    return int(os.environ.get("CP_NRAND", "1200" if tier == "thorough" else "40"))
+    return int(os.environ.get("CP_NRAND", "1200" if tier == "thorough" else "32"))
 
 
 def harness_run(ctx, plugin, tier, seed=None, extra_tag=""):
@@ -137,7 +137,7 @@ def harness_run(ctx, plugin, tier, seed=None, extra_tag=""):
             scratch = os.path.join(ctx.work, "scratch-" + key)
             shutil.rmtree(scratch, ignore_errors=True)
             tmp = out + ".tmp"
-            env = {"VERIF_TIER": tier, "VERIF_SEED": str(seed), "CP_NRAND": str(nrand(tier)), "CP_PAR": os.environ.get("CP_PAR", "20")}
+            env = {"VERIF_TIER": tier, "VERIF_SEED": str(seed), "CP_NRAND": str(nrand(tier)), "CP_PAR": os.environ.get("CP_PAR", "20" if tier == "thorough" else "40")}
             rc, o, dt = vlib.sh(["timeout", "2400", ctx.bin("client_proc"), "run", plugin, tmp, scratch], env=env, timeout=2500)
             ctx.log(f"client_proc[{tier}] run -> rc={rc} in {dt:.1f}s")
             shutil.rmtree(scratch, ignore_errors=True)
